@@ -13,7 +13,7 @@ import mutant
 REVERTS = {"revert-D1": ["C02", "C01", "C08"], "revert-D2": ["C14"], "revert-D3": ["C05", "C03"], "revert-D4": ["C03"],
            "revert-D5": ["C05", "C08"], "revert-D6": ["C04"], "revert-D7": ["C05"], "revert-D8": ["C05", "C08"],
            "revert-D9": ["C04"], "revert-D10": ["C03"], "revert-D11": ["C12"], "revert-D12": ["C13"],
-           "revert-D13": ["C03"], "revert-D14": ["C05"]}
+           "revert-D13": ["C03"], "revert-D14": ["C05"], "revert-D15": ["C13", "C14"]}
 
 
 def main():
